@@ -5,9 +5,11 @@
             post-chain IR type; `goDecode`/`goEncode` from Cog/Sem/GoCodec.lean, GoVal.lean)
   Lemmas  : Cog/Sem/GoEquals{Lemmas,Laws,Enc,Leaf,Decode}.lean
   Values  : `a`, `b`, `c` are results of `goDecode` (json.Unmarshal into the generated type) that
-            lie in the modelled fragment (`wt`, the decidable shape predicate; `C13_decode_wt`
-            shows every decoded value of a schema in the fragment satisfies it).  `goEquals`
-            compares values coming from independent decodes.
+            lie in the modelled fragment (`wt`, the decidable shape predicate; `C13_decode_wt`:
+            every value decoded with fuel `fd` for a schema in the fragment `schemasOk` satisfies
+            it at fuel `fd + 1`; the `C13_*_schema` corollaries discharge it that way).
+            `goEquals` compares values coming from independent decodes; `fd` is the fuel of
+            the decode, `fe` the fuel of `Equals`.
 
   Each property is stated at full strength (`C13_*_full`).  Four of the six are false on the
   current tree; for those the `_partial` theorem carries explicit decidable hypotheses and the
@@ -20,6 +22,7 @@
 -/
 import Cog.Sem.GoEqualsEnc
 import Cog.Sem.GoEqualsLeaf
+import Cog.Sem.GoEqualsDecode
 namespace Cog.Sem
 open Cog.IR Cog.Sem.GoVal
 
@@ -27,34 +30,34 @@ open Cog.IR Cog.Sem.GoVal
 
 /-- decoding a document twice gives equal values -/
 def C13_refl_full : Prop :=
-  ∀ (fuel : Nat) (ss : Schemas) (t : Ty) (j : Json) (a : GoVal),
-    goDecode fuel ss t j = .ok a → wt fuel ss t a = true → goEquals fuel ss t a a = true
+  ∀ (fd fe : Nat) (ss : Schemas) (t : Ty) (j : Json) (a : GoVal),
+    goDecode fd ss t j = .ok a → wt fe ss t a = true → goEquals fe ss t a a = true
 
 def C13_symm_full : Prop :=
-  ∀ (fuel : Nat) (ss : Schemas) (t : Ty) (ja jb : Json) (a b : GoVal),
-    goDecode fuel ss t ja = .ok a → goDecode fuel ss t jb = .ok b →
-    wt fuel ss t a = true → wt fuel ss t b = true →
-    goEquals fuel ss t a b = goEquals fuel ss t b a
+  ∀ (fd fe : Nat) (ss : Schemas) (t : Ty) (ja jb : Json) (a b : GoVal),
+    goDecode fd ss t ja = .ok a → goDecode fd ss t jb = .ok b →
+    wt fe ss t a = true → wt fe ss t b = true →
+    goEquals fe ss t a b = goEquals fe ss t b a
 
 def C13_trans_full : Prop :=
-  ∀ (fuel : Nat) (ss : Schemas) (t : Ty) (ja jb jc : Json) (a b c : GoVal),
-    goDecode fuel ss t ja = .ok a → goDecode fuel ss t jb = .ok b → goDecode fuel ss t jc = .ok c →
-    wt fuel ss t a = true → wt fuel ss t b = true → wt fuel ss t c = true →
-    goEquals fuel ss t a b = true → goEquals fuel ss t b c = true → goEquals fuel ss t a c = true
+  ∀ (fd fe : Nat) (ss : Schemas) (t : Ty) (ja jb jc : Json) (a b c : GoVal),
+    goDecode fd ss t ja = .ok a → goDecode fd ss t jb = .ok b → goDecode fd ss t jc = .ok c →
+    wt fe ss t a = true → wt fe ss t b = true → wt fe ss t c = true →
+    goEquals fe ss t a b = true → goEquals fe ss t b c = true → goEquals fe ss t a c = true
 
 /-- two values that encode to the same JSON are equal -/
 def C13_enc_eq_implies_equals_full : Prop :=
-  ∀ (fuel : Nat) (ss : Schemas) (t : Ty) (ja jb : Json) (a b : GoVal),
-    goDecode fuel ss t ja = .ok a → goDecode fuel ss t jb = .ok b →
-    wt fuel ss t a = true → wt fuel ss t b = true →
-    goEncode a = goEncode b → goEquals fuel ss t a b = true
+  ∀ (fd fe : Nat) (ss : Schemas) (t : Ty) (ja jb : Json) (a b : GoVal),
+    goDecode fd ss t ja = .ok a → goDecode fd ss t jb = .ok b →
+    wt fe ss t a = true → wt fe ss t b = true →
+    goEncode a = goEncode b → goEquals fe ss t a b = true
 
 /-- two equal values encode to the same JSON once nil and empty collections are identified -/
 def C13_equals_implies_enc_eqv_full : Prop :=
-  ∀ (fuel : Nat) (ss : Schemas) (t : Ty) (ja jb : Json) (a b : GoVal),
-    goDecode fuel ss t ja = .ok a → goDecode fuel ss t jb = .ok b →
-    wt fuel ss t a = true → wt fuel ss t b = true →
-    goEquals fuel ss t a b = true → goEncode (canonNil a) = goEncode (canonNil b)
+  ∀ (fd fe : Nat) (ss : Schemas) (t : Ty) (ja jb : Json) (a b : GoVal),
+    goDecode fd ss t ja = .ok a → goDecode fd ss t jb = .ok b →
+    wt fe ss t a = true → wt fe ss t b = true →
+    goEquals fe ss t a b = true → goEncode (canonNil a) = goEncode (canonNil b)
 
 /-- a difference in exactly one leaf, at any depth, makes two values unequal -/
 def C13_single_leaf_full : Prop :=
@@ -67,20 +70,20 @@ def C13_single_leaf_full : Prop :=
 /-- Reflexivity across decodes, for values whose timestamps all carry a `*Location` shared
     between decodes (UTC, the local offset, or a whole-hour offset).  All schemas of the fragment,
     all documents. -/
-theorem C13_refl_partial (fuel : Nat) (ss : Schemas) (t : Ty) (j : Json) (a : GoVal)
-    (_hd : goDecode fuel ss t j = .ok a) (hw : wt fuel ss t a = true)
-    (ht : timesShared a = true) : goEquals fuel ss t a a = true :=
-  goEquals_refl fuel ss t a hw ht
+theorem C13_refl_partial (fd fe : Nat) (ss : Schemas) (t : Ty) (j : Json) (a : GoVal)
+    (_hd : goDecode fd ss t j = .ok a) (hw : wt fe ss t a = true)
+    (ht : timesShared a = true) : goEquals fe ss t a a = true :=
+  goEquals_refl fe ss t a hw ht
 
 /-- Symmetry, when no map entry of the receiver is `Equals` to the zero value of its type. -/
-theorem C13_symm_partial (fuel : Nat) (ss : Schemas) (t : Ty) (ja jb : Json) (a b : GoVal)
-    (_ha : goDecode fuel ss t ja = .ok a) (_hb : goDecode fuel ss t jb = .ok b)
-    (wa : wt fuel ss t a = true) (wb : wt fuel ss t b = true)
-    (na : mapsNonZero fuel ss t a = true) (nb : mapsNonZero fuel ss t b = true) :
-    goEquals fuel ss t a b = goEquals fuel ss t b a := by
-  cases h1 : goEquals fuel ss t a b <;> cases h2 : goEquals fuel ss t b a <;> try rfl
-  · rw [goEquals_symm fuel ss t b a wb wa nb h2] at h1; cases h1
-  · rw [goEquals_symm fuel ss t a b wa wb na h1] at h2; cases h2
+theorem C13_symm_partial (fd fe : Nat) (ss : Schemas) (t : Ty) (ja jb : Json) (a b : GoVal)
+    (_ha : goDecode fd ss t ja = .ok a) (_hb : goDecode fd ss t jb = .ok b)
+    (wa : wt fe ss t a = true) (wb : wt fe ss t b = true)
+    (na : mapsNonZero fe ss t a = true) (nb : mapsNonZero fe ss t b = true) :
+    goEquals fe ss t a b = goEquals fe ss t b a := by
+  cases h1 : goEquals fe ss t a b <;> cases h2 : goEquals fe ss t b a <;> try rfl
+  · rw [goEquals_symm fe ss t b a wb wa nb h2] at h1; cases h1
+  · rw [goEquals_symm fe ss t a b wa wb na h1] at h2; cases h2
 
 /-- one direction needs the hypothesis on the receiver only -/
 theorem C13_symm_partial' (fuel : Nat) (ss : Schemas) (t : Ty) (a b : GoVal)
@@ -90,41 +93,41 @@ theorem C13_symm_partial' (fuel : Nat) (ss : Schemas) (t : Ty) (a b : GoVal)
   goEquals_symm fuel ss t a b wa wb na h
 
 /-- Transitivity, when no map entry of `a` or `b` is `Equals` to the zero value of its type. -/
-theorem C13_trans_partial (fuel : Nat) (ss : Schemas) (t : Ty) (ja jb jc : Json) (a b c : GoVal)
-    (_ha : goDecode fuel ss t ja = .ok a) (_hb : goDecode fuel ss t jb = .ok b)
-    (_hc : goDecode fuel ss t jc = .ok c)
-    (wa : wt fuel ss t a = true) (wb : wt fuel ss t b = true) (wc : wt fuel ss t c = true)
-    (na : mapsNonZero fuel ss t a = true) (nb : mapsNonZero fuel ss t b = true)
-    (hab : goEquals fuel ss t a b = true) (hbc : goEquals fuel ss t b c = true) :
-    goEquals fuel ss t a c = true :=
-  goEquals_trans fuel ss t a b c wa wb wc na nb hab hbc
+theorem C13_trans_partial (fd fe : Nat) (ss : Schemas) (t : Ty) (ja jb jc : Json) (a b c : GoVal)
+    (_ha : goDecode fd ss t ja = .ok a) (_hb : goDecode fd ss t jb = .ok b)
+    (_hc : goDecode fd ss t jc = .ok c)
+    (wa : wt fe ss t a = true) (wb : wt fe ss t b = true) (wc : wt fe ss t c = true)
+    (na : mapsNonZero fe ss t a = true) (nb : mapsNonZero fe ss t b = true)
+    (hab : goEquals fe ss t a b = true) (hbc : goEquals fe ss t b c = true) :
+    goEquals fe ss t a c = true :=
+  goEquals_trans fe ss t a b c wa wb wc na nb hab hbc
 
 /-- Same encoding ⇒ equal, for shared time locations and the same active union branches
     (branch choice is made by the custom unmarshallers from the document; two documents with the
     same re-encoding choose the same branch whenever the branches' encodings are disjoint). -/
-theorem C13_enc_eq_implies_equals_partial (fuel : Nat) (ss : Schemas) (t : Ty) (ja jb : Json)
-    (a b : GoVal) (_ha : goDecode fuel ss t ja = .ok a) (_hb : goDecode fuel ss t jb = .ok b)
-    (wa : wt fuel ss t a = true) (wb : wt fuel ss t b = true)
-    (ht : timesShared a = true) (hu : unionsAligned fuel ss t a b = true)
-    (he : goEncode a = goEncode b) : goEquals fuel ss t a b = true :=
-  goEquals_of_enc fuel ss t a b wa wb ht hu he
+theorem C13_enc_eq_implies_equals_partial (fd fe : Nat) (ss : Schemas) (t : Ty) (ja jb : Json)
+    (a b : GoVal) (_ha : goDecode fd ss t ja = .ok a) (_hb : goDecode fd ss t jb = .ok b)
+    (wa : wt fe ss t a = true) (wb : wt fe ss t b = true)
+    (ht : timesShared a = true) (hu : unionsAligned fe ss t a b = true)
+    (he : goEncode a = goEncode b) : goEquals fe ss t a b = true :=
+  goEquals_of_enc fe ss t a b wa wb ht hu he
 
 /-- in particular: the same document decoded twice (no union hypothesis needed) -/
-theorem C13_same_document_partial (fuel : Nat) (ss : Schemas) (t : Ty) (j : Json) (a b : GoVal)
-    (ha : goDecode fuel ss t j = .ok a) (hb : goDecode fuel ss t j = .ok b)
-    (wa : wt fuel ss t a = true) (ht : timesShared a = true) : goEquals fuel ss t a b = true := by
+theorem C13_same_document_partial (fd fe : Nat) (ss : Schemas) (t : Ty) (j : Json) (a b : GoVal)
+    (ha : goDecode fd ss t j = .ok a) (hb : goDecode fd ss t j = .ok b)
+    (wa : wt fe ss t a = true) (ht : timesShared a = true) : goEquals fe ss t a b = true := by
   have : a = b := by rw [ha] at hb; cases hb; rfl
   subst this
-  exact goEquals_refl fuel ss t a wa ht
+  exact goEquals_refl fe ss t a wa ht
 
 /-- Equal ⇒ same encoding up to nil/empty collections (exact JSON equality after `canonNil`),
     when no map entry of the receiver is `Equals` to the zero value of its type. -/
-theorem C13_equals_implies_enc_eqv_partial (fuel : Nat) (ss : Schemas) (t : Ty) (ja jb : Json)
-    (a b : GoVal) (_ha : goDecode fuel ss t ja = .ok a) (_hb : goDecode fuel ss t jb = .ok b)
-    (wa : wt fuel ss t a = true) (wb : wt fuel ss t b = true)
-    (na : mapsNonZero fuel ss t a = true) (h : goEquals fuel ss t a b = true) :
+theorem C13_equals_implies_enc_eqv_partial (fd fe : Nat) (ss : Schemas) (t : Ty) (ja jb : Json)
+    (a b : GoVal) (_ha : goDecode fd ss t ja = .ok a) (_hb : goDecode fd ss t jb = .ok b)
+    (wa : wt fe ss t a = true) (wb : wt fe ss t b = true)
+    (na : mapsNonZero fe ss t a = true) (h : goEquals fe ss t a b = true) :
     goEncode (canonNil a) = goEncode (canonNil b) :=
-  goEquals_enc fuel ss t a b wa wb na h
+  goEquals_enc fe ss t a b wa wb na h
 
 theorem LeafDiff.symm {a b : GoVal} (h : LeafDiff a b) : LeafDiff b a := by
   induction h with
@@ -149,6 +152,49 @@ theorem LeafDiff.symm {a b : GoVal} (h : LeafDiff a b) : LeafDiff b a := by
 theorem C13_single_leaf : C13_single_leaf_full := fun fuel ss t a b wa wb hd =>
   ⟨goEquals_false_of_leafDiff fuel ss t a b wa wb hd,
    goEquals_false_of_leafDiff fuel ss t b a wb wa hd.symm⟩
+
+/-! ## the fragment: every decoded value is well typed -/
+
+/-- `wt` is not an extra assumption on schemas of the fragment: for every schema set passing the
+    decidable check `schemasOk` and every position type passing `posOk` (in particular every
+    object `.ref pkg name {}` whose type is a struct), every document that decodes, decodes to a
+    well-typed value. -/
+theorem C13_decode_wt (ss : Schemas) (hs : schemasOk ss = true) (fd : Nat) (t : Ty) (j : Json)
+    (a : GoVal) (hp : posOk ss t = true) (hd : goDecode fd ss t j = .ok a) :
+    wt (fd + 1) ss t a = true :=
+  goDecode_wt ss hs fd t j a hp hd
+
+/-- the laws on a schema of the fragment, with `wt` discharged -/
+theorem C13_equivalence_schema (ss : Schemas) (hs : schemasOk ss = true) (fd : Nat) (t : Ty)
+    (hp : posOk ss t = true) (ja jb jc : Json) (a b c : GoVal)
+    (ha : goDecode fd ss t ja = .ok a) (hb : goDecode fd ss t jb = .ok b)
+    (hc : goDecode fd ss t jc = .ok c)
+    (ta : timesShared a = true)
+    (na : mapsNonZero (fd + 1) ss t a = true) (nb : mapsNonZero (fd + 1) ss t b = true) :
+    goEquals (fd + 1) ss t a a = true ∧
+    goEquals (fd + 1) ss t a b = goEquals (fd + 1) ss t b a ∧
+    (goEquals (fd + 1) ss t a b = true → goEquals (fd + 1) ss t b c = true →
+      goEquals (fd + 1) ss t a c = true) :=
+  have wa := goDecode_wt ss hs fd t ja a hp ha
+  have wb := goDecode_wt ss hs fd t jb b hp hb
+  have wc := goDecode_wt ss hs fd t jc c hp hc
+  ⟨C13_refl_partial fd _ ss t ja a ha wa ta,
+   C13_symm_partial fd _ ss t ja jb a b ha hb wa wb na nb,
+   C13_trans_partial fd _ ss t ja jb jc a b c ha hb hc wa wb wc na nb⟩
+
+theorem C13_encoding_schema (ss : Schemas) (hs : schemasOk ss = true) (fd : Nat) (t : Ty)
+    (hp : posOk ss t = true) (ja jb : Json) (a b : GoVal)
+    (ha : goDecode fd ss t ja = .ok a) (hb : goDecode fd ss t jb = .ok b) :
+    (timesShared a = true → unionsAligned (fd + 1) ss t a b = true → goEncode a = goEncode b →
+      goEquals (fd + 1) ss t a b = true) ∧
+    (mapsNonZero (fd + 1) ss t a = true → goEquals (fd + 1) ss t a b = true →
+      goEncode (canonNil a) = goEncode (canonNil b)) ∧
+    (LeafDiff a b → goEquals (fd + 1) ss t a b = false ∧ goEquals (fd + 1) ss t b a = false) :=
+  have wa := goDecode_wt ss hs fd t ja a hp ha
+  have wb := goDecode_wt ss hs fd t jb b hp hb
+  ⟨fun ta ua he => C13_enc_eq_implies_equals_partial fd _ ss t ja jb a b ha hb wa wb ta ua he,
+   fun na h => C13_equals_implies_enc_eqv_partial fd _ ss t ja jb a b ha hb wa wb na h,
+   fun hd => C13_single_leaf _ ss t a b wa wb hd⟩
 
 /-! ## witnesses -/
 
@@ -190,13 +236,13 @@ open C13W
 /-- `{"m":{"k1":"","k2":"x"}}.Equals({"m":{"k2":"x","k3":"y"}})` is true, the converse false -/
 theorem C13_symm_counterexample : ¬ C13_symm_full := by
   intro h
-  have := h 8 ss tM (mdoc a1) (mdoc b1) (mval a1) (mval b1) (by rfl) (by rfl) (by decide) (by decide)
+  have := h 8 8 ss tM (mdoc a1) (mdoc b1) (mval a1) (mval b1) (by rfl) (by rfl) (by decide) (by decide)
   revert this; decide
 
 /-- a = {k1:"",k2:"x"}, b = {k2:"x",k3:""}, c = {k2:"x",k1:"y"}: a~b, b~c, not a~c -/
 theorem C13_trans_counterexample : ¬ C13_trans_full := by
   intro h
-  have := h 8 ss tM (mdoc a1) (mdoc [("k2", "x"), ("k3", "")]) (mdoc c1)
+  have := h 8 8 ss tM (mdoc a1) (mdoc [("k2", "x"), ("k3", "")]) (mdoc c1)
     (mval a1) (mval [("k2", "x"), ("k3", "")]) (mval c1)
     (by rfl) (by rfl) (by rfl) (by decide) (by decide) (by decide) (by decide) (by decide)
   revert this; decide
@@ -205,7 +251,7 @@ theorem C13_trans_counterexample : ¬ C13_trans_full := by
     nil/empty collections -/
 theorem C13_equals_implies_enc_eqv_counterexample : ¬ C13_equals_implies_enc_eqv_full := by
   intro h
-  have := h 8 ss tM (mdoc [("k1", "")]) (mdoc [("k2", "")]) (mval [("k1", "")]) (mval [("k2", "")])
+  have := h 8 8 ss tM (mdoc [("k1", "")]) (mdoc [("k2", "")]) (mval [("k1", "")]) (mval [("k2", "")])
     (by rfl) (by rfl) (by decide) (by decide) (by decide)
   have hb := (jbeq_iff _ _).2 this
   revert hb; decide
@@ -213,27 +259,33 @@ theorem C13_equals_implies_enc_eqv_counterexample : ¬ C13_equals_implies_enc_eq
 /-- two decodes of `{"at":"2024-01-01T10:00:00+05:30"}` are not equal -/
 theorem C13_refl_counterexample : ¬ C13_refl_full := by
   intro h
-  have := h 8 ss tT (tdoc halfHour) (tval halfHour) (by rfl) (by decide)
+  have := h 8 8 ss tT (tdoc halfHour) (tval halfHour) (by rfl) (by decide)
   revert this; decide
 
 theorem C13_enc_eq_implies_equals_counterexample : ¬ C13_enc_eq_implies_equals_full := by
   intro h
-  have := h 8 ss tT (tdoc halfHour) (tdoc halfHour) (tval halfHour) (tval halfHour)
+  have := h 8 8 ss tT (tdoc halfHour) (tdoc halfHour) (tval halfHour) (tval halfHour)
     (by rfl) (by rfl) (by decide) (by decide) rfl
   revert this; decide
 
 /-! ## non-vacuity: the hypotheses of the partial theorems are satisfiable by interesting values -/
 
+/-- the witness schema set is in the fragment, so `C13_decode_wt` applies to it -/
+example : schemasOk ss = true := by decide
+example : posOk ss tM = true ∧ posOk ss tT = true ∧ posOk ss tL = true := by decide
+example : wt 9 ss tM (mval a1) = true := C13_decode_wt ss (by decide) 8 tM (mdoc a1) _ (by decide) (by rfl)
+
+
 /-- reflexivity: a whole-hour offset is fine -/
 example : goEquals 8 ss tT (tval "2024-01-01T10:00:00+05:00") (tval "2024-01-01T10:00:00+05:00") = true :=
-  C13_refl_partial 8 ss tT (tdoc "2024-01-01T10:00:00+05:00") _ (by rfl) (by decide) (by decide)
+  C13_refl_partial 8 8 ss tT (tdoc "2024-01-01T10:00:00+05:00") _ (by rfl) (by decide) (by decide)
 
 /-- symmetry / transitivity / soundness hypotheses hold for maps without zero values, and such
     maps with the same entries in another order are equal -/
 example : mapsNonZero 8 ss tM (mval [("k1", "v"), ("k2", "x")]) = true := by decide
 example : goEquals 8 ss tM (mval [("k1", "v"), ("k2", "x")]) (mval [("k2", "x"), ("k1", "v")]) = true := by decide
 example : goEncode (canonNil (mval [("k1", "v"), ("k2", "x")])) = goEncode (canonNil (mval [("k2", "x"), ("k1", "v")])) :=
-  C13_equals_implies_enc_eqv_partial 8 ss tM (mdoc [("k1", "v"), ("k2", "x")]) (mdoc [("k2", "x"), ("k1", "v")])
+  C13_equals_implies_enc_eqv_partial 8 8 ss tM (mdoc [("k1", "v"), ("k2", "x")]) (mdoc [("k2", "x"), ("k1", "v")])
     _ _ (by rfl) (by rfl) (by decide) (by decide) (by decide) (by decide)
 
 /-- the nil/empty distinction is real: a nil and an empty slice are equal, encode differently,
